@@ -9,7 +9,13 @@
 //!     quintic circuit field — the non-constant coefficients of the rate outputs);
 //!   * `Op::Hint` executors of the compiled circuit are replaced by executors that emit an
 //!     alternative decomposition satisfying the recomposition identity (extension coefficients
-//!     with mass moved between limbs / non-base limbs; bits of x+p).
+//!     with mass moved between limbs / non-base limbs; bits of x+p);
+//!   * family `row-input`: the INPUT limbs of one permutation row that do not carry an absorbed
+//!     value (zero-padded rate lanes / capacity lanes of a fresh chain, capacity and unabsorbed rate
+//!     lanes of later rows) are prover-chosen: the permutation of that row is computed honestly from
+//!     the forged input, its outputs are propagated through the rest of the run, and the recorded
+//!     row inputs in the Poseidon trace are edited to the forged input so that the table prover's
+//!     recomputation of the permutation columns is consistent with what was run.
 //! The resulting traces are proven with the honest `CircuitProverData` and verified with
 //! `verify_all_tables`. Oracle: verifier accepts  =>  every sampled target equals the native
 //! `DuplexChallenger` challenge for the full observed sequence.
@@ -24,8 +30,8 @@ use std::sync::atomic::{AtomicUsize, Ordering};
 use std::sync::{Arc, Mutex};
 
 use c05::*;
-use p3_circuit::ops::HintExecutor;
-use p3_circuit::{CircuitError, Op, WitnessId};
+use p3_circuit::ops::{HintExecutor, Poseidon1Trace, Poseidon2Trace};
+use p3_circuit::{CircuitError, Op, Traces, WitnessId};
 use p3_field::PrimeField64;
 use p3r_verif::fields::Setup;
 use p3r_verif::util::*;
@@ -56,9 +62,38 @@ impl Val {
     }
 }
 
+/// Classes of permutation-row input lanes that do not carry an absorbed value (family `row-input`).
+#[derive(Clone, Copy, Debug, Serialize, Deserialize, PartialEq, Eq, PartialOrd, Ord)]
+enum LaneClass {
+    /// rate lanes `absorb_len..RATE` of the first duplexing of a chain (zero by padding / initial state)
+    PaddedRate,
+    /// capacity lanes of the first duplexing of a chain (zero initial state, + length tag)
+    FreshCapacity,
+    /// capacity lanes of a later duplexing (inherited from the previous permutation output)
+    ChainedCapacity,
+    /// rate lanes `absorb_len..RATE` of a later duplexing (zero padding of a partial absorb, or
+    /// the previous rate outputs of a pure squeeze)
+    CarriedRate,
+}
+
+impl LaneClass {
+    fn name(self) -> &'static str {
+        match self {
+            LaneClass::PaddedRate => "padded-rate",
+            LaneClass::FreshCapacity => "fresh-capacity",
+            LaneClass::ChainedCapacity => "chained-capacity",
+            LaneClass::CarriedRate => "carried-rate",
+        }
+    }
+}
+
 #[derive(Clone, Debug, Serialize, Deserialize, PartialEq)]
 enum Plan {
     Honest,
+    /// Input lanes `lanes` (base-limb indices) of permutation row `at` are prover-chosen; the row's
+    /// permutation is recomputed from the forged input (`Val::Replay(j)`: the lanes of the output
+    /// of call `j`), the outputs are propagated and the recorded trace-row inputs are edited.
+    RowInput { at: usize, lanes: Vec<usize>, val: Val, class: LaneClass },
     /// Base-limb indices `limbs` of the output of permutation call `at` are prover-chosen.
     Perm { at: usize, limbs: Vec<usize>, val: Val },
     /// Non-constant coefficients of output lanes `limbs` of call `at` are prover-chosen
@@ -77,6 +112,10 @@ struct DevState {
     outer_calls: AtomicUsize,
     fired: AtomicUsize,
     hist: Mutex<Vec<Vec<u64>>>,
+    /// Recorded inputs of every permutation row of the honest baseline run (kept across plans).
+    rows: Mutex<Vec<Vec<u64>>>,
+    /// The forged input of the row a `RowInput` plan fired on.
+    forged: Mutex<Option<Vec<u64>>>,
 }
 
 impl DevState {
@@ -87,6 +126,8 @@ impl DevState {
             outer_calls: AtomicUsize::new(0),
             fired: AtomicUsize::new(0),
             hist: Mutex::new(vec![]),
+            rows: Mutex::new(vec![]),
+            forged: Mutex::new(None),
         })
     }
     fn arm(&self, p: &Plan) {
@@ -95,6 +136,7 @@ impl DevState {
         self.outer_calls.store(0, Ordering::SeqCst);
         self.fired.store(0, Ordering::SeqCst);
         self.hist.lock().unwrap().clear();
+        *self.forged.lock().unwrap() = None;
     }
 }
 
@@ -111,8 +153,8 @@ fn base_hook<C: Cfg>(st: Arc<DevState>) -> LimbHook<BOf<C>> {
         let k = st.calls.fetch_add(1, Ordering::SeqCst);
         let honest: Vec<u64> = x.iter().map(|v| v.as_canonical_u64()).collect();
         let mut hist = st.hist.lock().unwrap();
-        if let Plan::Perm { at, limbs, val } = &*st.plan.lock().unwrap() {
-            if *at == k {
+        match &*st.plan.lock().unwrap() {
+            Plan::Perm { at, limbs, val } if *at == k => {
                 for &l in limbs {
                     let v = match val {
                         Val::Zero => 0,
@@ -123,6 +165,28 @@ fn base_hook<C: Cfg>(st: Arc<DevState>) -> LimbHook<BOf<C>> {
                 }
                 st.fired.fetch_add(1, Ordering::SeqCst);
             }
+            Plan::RowInput { at, lanes, val, .. } if *at == k => {
+                // Rows before `at` are honest, so the input of this call is the recorded input of
+                // the honest baseline run; the whole output becomes P(forged input).
+                if let Some(inp) = st.rows.lock().unwrap().get(k).filter(|r| r.len() == x.len()) {
+                    let mut f = inp.clone();
+                    for &l in lanes.iter().filter(|l| **l < f.len()) {
+                        f[l] = match val {
+                            Val::Zero => 0,
+                            Val::Random(s) => 1 + mix(*s, l as u64) % (order - 1),
+                            Val::Replay(j) => hist.get(*j).map(|o| o[l]).unwrap_or(0),
+                        };
+                    }
+                    if f != *inp {
+                        let mut y: Vec<BOf<C>> = f.iter().map(|v| bel::<C>(*v)).collect();
+                        C::raw_permute(&mut y);
+                        x.copy_from_slice(&y);
+                        *st.forged.lock().unwrap() = Some(f);
+                        st.fired.fetch_add(1, Ordering::SeqCst);
+                    }
+                }
+            }
+            _ => {}
         }
         hist.push(honest);
     })
